@@ -42,8 +42,10 @@ def index_loop_lookup(fb, look, vec, L):
             iv = v["decl"]
     if iv is None:
         return None, ""
+    unmodified = not any(d == vec for d, _, _ in facts.writes_of(look))  # a cached size() stays the element count
+    cr = strip_all_casts(facts.expand(look, cond["r"])) if cond.get("k") == "bin" and unmodified else {}
     whole = cond.get("k") == "bin" and cond.get("op") in ("<", "!=") and strip_all_casts(cond["l"]).get("decl") == iv and \
-        (strip_all_casts(cond["r"]).get("callee") or {}).get("nm") == "size" and strip_all_casts(strip_all_casts(cond["r"]).get("obj", {})).get("field") == vec
+        (cr.get("callee") or {}).get("nm") == "size" and strip_all_casts(cr.get("obj", {})).get("field") == vec
     step = inc.get("k") == "un" and inc.get("op") in ("pre++", "post++") and strip_all_casts(inc["e"]).get("decl") == iv
     rets = look.returns()
     inside = [r for r in rets if any(a.get("id") == ls["id"] for a in look.ancestors(r))]
@@ -51,7 +53,7 @@ def index_loop_lookup(fb, look, vec, L):
     if len(inside) != 1 or len(outside) != 1:
         return None, ""
     ret_i = strip_all_casts(inside[0]["e"]).get("decl") == iv
-    ro = strip_all_casts(outside[0]["e"])
+    ro = strip_all_casts(facts.expand(look, outside[0]["e"])) if unmodified else strip_all_casts(outside[0]["e"])
     ret_n = (ro.get("callee") or {}).get("nm") == "size" and strip_all_casts(ro.get("obj", {})).get("field") == vec
     fs = MustFacts(look).at(inside[0])
     pred = False
